@@ -20,3 +20,23 @@ claim('C03', 'other',
       'abstract interpretation of encoder ASTs over a finite domain + specification table comparison (no execution)',
       'trusted: CPython ast, the engine (sa/absint.py, sa/fold.py), /verif/spec/native_protocol.py written from the protocol specs',
       'DESIGN.md section 5 C03, section 4 F1/F2')
+
+_TB = 'trusted: CPython ast parser and the /verif/sa engine; assumes calls not modelled by a rule have no effect on the tracked facts'
+
+claim('C01', 'other',
+      'static analysis: writer/reader mirror rules over every codec class of cqltypes.py (struct formats, per-version collection layouts by abstract '
+      'interpretation, null-length handling, cursor discipline, to_binary/from_binary table, varint sign bit over all 256 byte values); '
+      'decides the structural necessary conditions of the round trip, not value equality',
+      'sibling (writer vs reader) layout extraction by abstract interpretation + finite byte-domain folding', _TB,
+      'DESIGN.md section 5 C01')
+claim('C02', 'other',
+      'static analysis: extracted writer/reader layouts compared with a specification table (widths, signedness, byte order, per-version collection '
+      'prefixes, date offset, decimal/duration field order), vint first-byte functions folded over all 256 byte values, overflow raises; '
+      'arithmetic of varint length / zig-zag is not decided',
+      'layout extraction + specification table comparison + finite-domain constant folding',
+      _TB + '; /verif/spec/native_protocol.py VALUE_FORMATS written from the protocol specification section 6',
+      'DESIGN.md section 5 C02')
+claim('C24', 'other',
+      'static analysis: three-valued guard analysis of the attempt limit (None / 0 / n>0), validation paths, shape of every yielded delay, '
+      'dataflow "counter advances once per loop iteration", StopIteration handling of the reconnection handler; not the numeric jitter band',
+      'three-valued guard domain + CFG dataflow + path enumeration', _TB, 'DESIGN.md section 5 C24')
